@@ -174,7 +174,7 @@ def is_dominant(list1: List, list2: List):
         return False
 
     # If list2 is a sublist of list1
-    if all(x in list1 for x in list2):
+    if all(list2.count(x) <= list1.count(x) for x in list2):   # a sublist must respect multiplicities
         return True
 
     # If the largest item in list2 does not fit the largest item in list1 - list1 can't dominate list2
